@@ -27,7 +27,7 @@ Print Assumptions C12_escape_parens_escaped.
 Theorem C12_literal_roundtrip : forall (s rest : bytes),
   parseStringLiteral (40 :: Escape s ++ 41 :: rest) = Ok (Escape s, rest)
   /\ Unescape (Escape s) = Ok s.
-Proof. intros s rest. split; [apply parse_escape | apply unescape_escape]. Qed.
+Proof. exact literal_roundtrip. Qed.
 Print Assumptions C12_literal_roundtrip.
 
 (* Unescape never fails: its only error ("illegal \ in octal code sequence") is unreachable. *)
@@ -54,10 +54,7 @@ Print Assumptions C12_decode_encode_name_nul.
 Theorem C12_encode_name_charset : forall s : bytes, bytes_ok s = true ->
   nameWF (EncodeName s) = true
   /\ Forall (fun c => 33 <= c <= 126 /\ isDelimiter c = false) (EncodeName s).
-Proof.
-  intros s Hok. pose proof (encode_name_charset s Hok) as H.
-  split; [exact H | apply nameWF_bytes, H].
-Qed.
+Proof. exact encode_name_charset_full. Qed.
 Print Assumptions C12_encode_name_charset.
 
 (* non-vacuity and spot checks (tests, not theorems): CR LF, backslash + digits,
